@@ -13,6 +13,9 @@ fn main() {
         eprintln!("usage: ccv <PROPERTY|selftest> [k=v ...]");
         std::process::exit(2);
     }
+    if args[0] == "noop" {
+        return;
+    }
     if args[0] == "selftest" {
         match ccv::refmodel::selftest(ccv::refmodel::T_ALL, 100000) {
             Ok(n) => {
